@@ -573,7 +573,8 @@ def rule_floorenc(ctx, prop: str) -> RuleResult:
         for f in sorted((f for f in ix.all_funcs() if f.file == file), key=lambda f: f.lineno):
             tmps = set()
             for n in f.own_nodes() if hasattr(f, "own_nodes") else f.body_nodes():
-                if isinstance(n, ast.Assign) and len(n.targets) == 1 and isinstance(n.targets[0], ast.Name) and n.targets[0].id.endswith("_tmp"):
+                if isinstance(n, ast.Assign) and len(n.targets) == 1 and isinstance(n.targets[0], ast.Name):
+                    # the fresh quotient is recognised by the Sym it is made from, not by the local's name
                     if any(isinstance(k, ast.Constant) and k.value in ("div_tmp", "mod_tmp") for k in ast.walk(n.value)):
                         tmps.add(n.targets[0].id)
             if not tmps:
